@@ -136,6 +136,19 @@ func (g *gen) genStatement(o string, typ types.Type) error {
 			p.P("}")
 			p.P("return h")
 			return nil
+		case types.Float32, types.Float64:
+			// -0 and +0 are equal, but have different bits.
+			p.P("if %s == 0 {", o)
+			p.In()
+			p.P("return 0")
+			p.Out()
+			p.P("}")
+			if ttyp.Kind() == types.Float32 {
+				p.P("return uint64(%s.Float32bits(%s))", g.mathPkg(), underlying(o, typ, ttyp))
+			} else {
+				p.P("return %s.Float64bits(%s)", g.mathPkg(), underlying(o, typ, ttyp))
+			}
+			return nil
 		}
 		fieldStr, err := g.field(o, typ)
 		if err != nil {
@@ -334,15 +347,15 @@ func (g *gen) field(fieldName string, fieldType types.Type) (string, error) {
 			return fmt.Sprintf("uint64(uintptr(%s))", fieldName), nil
 		case types.Uint64:
 			return fmt.Sprintf("%s", underlying(fieldName, fieldType, typ)), nil
-		// -0 and +0 are equal, but have different bits. Adding zero turns -0 into +0 and does not change any other number.
-		case types.Float32:
-			return fmt.Sprintf("uint64(%s.Float32bits(%s + 0))", g.mathPkg(), underlying(fieldName, fieldType, typ)), nil
-		case types.Float64:
-			return fmt.Sprintf("%s.Float64bits(%s + 0)", g.mathPkg(), underlying(fieldName, fieldType, typ)), nil
+		// floating point numbers are hashed by a function that gives -0 the hash of +0, since they are equal.
+		case types.Float32, types.Float64:
+			return fmt.Sprintf("%s(%s)", g.GetFuncName(fieldType), fieldName), nil
 		case types.Complex64:
-			return fmt.Sprintf("(31 * ((31 * 17) + uint64(%s.Float32bits(real(%s) + 0)))) + uint64(%s.Float32bits(imag(%s) + 0))", g.mathPkg(), fieldName, g.mathPkg(), fieldName), nil
+			f := g.GetFuncName(types.Typ[types.Float32])
+			return fmt.Sprintf("(31 * ((31 * 17) + %s(real(%s)))) + %s(imag(%s))", f, fieldName, f, fieldName), nil
 		case types.Complex128:
-			return fmt.Sprintf("(31 * ((31 * 17) + %s.Float64bits(real(%s) + 0))) + %s.Float64bits(imag(%s) + 0)", g.mathPkg(), fieldName, g.mathPkg(), fieldName), nil
+			f := g.GetFuncName(types.Typ[types.Float64])
+			return fmt.Sprintf("(31 * ((31 * 17) + %s(real(%s)))) + %s(imag(%s))", f, fieldName, f, fieldName), nil
 		case types.String, types.UntypedString:
 			return fmt.Sprintf("%s(%s)", g.GetFuncName(fieldType), fieldName), nil
 		}
